@@ -102,9 +102,22 @@ func Plan() []Case {
 
 var seq int64
 
+// current fallback variant, set by the harness loop (SetCase); New copies it into the run
+var currentVariant = "default"
+
+// SetCase tells the probe which planned case is being driven (printed as the fifth token of the trace line, so that a
+// replay can name the exact variant).
+func SetCase(c Case) {
+	currentVariant = "default"
+	if c.Custom {
+		currentVariant = "custom"
+	}
+}
+
 // Run is one request through one entry point under one scenario.
 type Run struct {
 	Key, Res, ID string
+	Variant      string // default | custom [+ harness-specific suffix]
 	Sc           Scenario
 	// errBack: this framework hands the handler's error back to the middleware
 	ErrBack bool
@@ -127,7 +140,7 @@ type Run struct {
 func New(key string, sc Scenario, errBack bool, format ...func(id string) string) *Run {
 	n := atomic.AddInt64(&seq, 1)
 	id := fmt.Sprintf("c19-%d-%d", os.Getpid(), n)
-	r := &Run{Key: key, Sc: sc, ErrBack: errBack, ID: id, Res: id}
+	r := &Run{Key: key, Sc: sc, ErrBack: errBack, ID: id, Res: id, Variant: currentVariant}
 	if len(format) > 0 {
 		r.Res = format[0](id)
 	}
@@ -286,5 +299,5 @@ func (r *Run) Finish() {
 	if r.Sc.Blocked {
 		b = "blocked"
 	}
-	fmt.Printf("trace %s %s %s => %s\n", r.Key, b, r.Sc.Handler, t)
+	fmt.Printf("trace %s %s %s %s => %s\n", r.Key, b, r.Sc.Handler, r.Variant, t)
 }
